@@ -357,10 +357,18 @@ Fixpoint no_ties (l : list sacc) : bool :=
                end
   end.
 
+(* a staging-area access (position beyond the bound rank's shape, pinned by the cache) of some
+   binding: a line is then pinned or replaceable depending on the access that brought it in, and
+   the fills can increase with the capacity (known finding, region 2; it needs two capacities) *)
+Definition has_staging (c : c17_case) : bool :=
+  existsb (fun b => existsb s_stg (spec_acc c pin_cache b)) (k_binds c).
+
 Definition c17_region (c : c17_case) : Z :=
   match k_caps c with
   | [] => 0
-  | _ => if forallb (fun b => no_ties (spec_acc c pin_cache b)) (k_binds c) then 0 else 1
+  | _ => if forallb (fun b => no_ties (spec_acc c pin_cache b)) (k_binds c)
+         then if Nat.leb 2 (length (k_caps c)) && has_staging c then 2 else 0
+         else 1
   end.
 
 (* ------------------------------------------------------------------ holds *)
